@@ -184,3 +184,8 @@ mod tests {
         }
     }
 }
+
+// Verification hook (compiled only by `cargo kani`, which sets `--cfg kani`).
+#[cfg(kani)]
+#[path = "/verif/harness/taiko_pgradual.rs"]
+pub(crate) mod verif_harness;
